@@ -193,7 +193,8 @@ class _AbstractOrderedSet(AbstractSet[T], Sequence[T]):  # noqa: PLW1641
             if len(self) > len(other):  # type: ignore[arg-type]
                 return False
         except TypeError:
-            pass
+            # Membership tests would consume a one-shot iterator
+            other = set(other)
         return all(item in other for item in self)
 
     def issuperset(self, other: Iterable[T]) -> bool:
@@ -231,8 +232,9 @@ class _AbstractOrderedSet(AbstractSet[T], Sequence[T]):  # noqa: PLW1641
             The symmetric difference.
         """
         cls = self.__class__
+        other = cls(other)  # `other` may be a one-shot iterator
         diff1 = cls(self).difference(other)
-        diff2 = cls(other).difference(self)
+        diff2 = other.difference(self)
         return diff1.union(diff2)
 
 
@@ -298,6 +300,7 @@ class OrderedSet(_AbstractOrderedSet[T], MutableSet[T]):
         Args:
             other: The other set.
         """
+        other = list(other)  # `other` may be a one-shot iterator
         items_to_add = [item for item in other if item not in self]
         items_to_remove = cast("set[T]", set(other))
         self._items = {item: None for item in self._items if item not in items_to_remove}
